@@ -1,0 +1,25 @@
+//go:build verif
+
+package routing
+
+// Hook for the out-of-tree verification harness (build tag verif), PRoPHET part. Add-only.
+
+import (
+	"github.com/dtn7/dtn7-go/pkg/bpv7"
+)
+
+// VerifNotify hands a bundle to the real NotifyNewBundle, as Core.receive does from the goroutine
+// of the convergence layer that received it. The bundle is not pushed into the store (for a
+// bundle without a PRoPHET block NotifyNewBundle then stops at "Failed to proceed a non-stored
+// Bundle").
+func (prophet *Prophet) VerifNotify(b *bpv7.Bundle, from bpv7.EndpointID) {
+	bd := BundleDescriptor{
+		Id:          b.ID(),
+		Receiver:    from,
+		Constraints: make(map[Constraint]bool),
+		Tags:        make(map[Tag]struct{}),
+		bndl:        b,
+		store:       prophet.c.store,
+	}
+	prophet.NotifyNewBundle(bd)
+}
